@@ -29,9 +29,9 @@ type C17Op struct {
 }
 
 type C17Case struct {
-	SP   h.SPConfig `json:"sp"`
-	Ops  [][]C17Op  `json:"ops"` // one list per goroutine (a single list for the sequential part)
-	Seq  bool       `json:"seq"`
+	SP  h.SPConfig `json:"sp"`
+	Ops [][]C17Op  `json:"ops"` // one list per goroutine (a single list for the sequential part)
+	Seq bool       `json:"seq"`
 }
 
 var c17OpKinds = []string{"authn-doc", "authn-str", "logout-req", "logout-resp", "auth-url", "auth-url-redirect", "logout-url", "auth-post", "metadata", "metadata-slo",
